@@ -228,7 +228,7 @@ func podChainsOf(k *nfsim.Kernel, c pwCluster) (referenced map[string]bool) {
 func livePodChainNames(c pwCluster) map[string]bool {
 	k := nfsim.New()
 	w := newPolicyWorld(k)
-	cc := pwCluster{Pods: c.Pods}
+	cc := pwCluster{Pods: append([]pwPod{}, c.Pods...)}
 	menu := policyMenu()
 	cc.Policies = append(cc.Policies, menu["in-denyall"], np("ns2", "deny2", sel(), tIn, nil, nil))
 	for i := range cc.Pods {
@@ -391,6 +391,9 @@ func init() {
 			var jobs []Job
 			for s := 0; s < 16; s++ {
 				jobs = append(jobs, c15Job(s, 16, tier))
+			}
+			for s := 0; s < 8; s++ {
+				jobs = append(jobs, c15EventJob(s, 8, tier))
 			}
 			return jobs
 		}})
